@@ -1223,3 +1223,88 @@ Qed.
 (* the too-large error is mapped before the failure accounting: it is never counted *)
 Lemma too_large_never_counted bs : proxy_after_forward (Some TooLarge) bs = (413, false).
 Proof. reflexivity. Qed.
+
+(* ---------- chunked bodies: the limit counts decoded bytes, whatever the wire segmentation ---------- *)
+Lemma span_hex_app ds r :
+  Forall (fun c => is_hex c = true) ds ->
+  match r with [] => True | c :: _ => is_hex c = false end ->
+  span_hex (ds ++ r) = (ds, r).
+Proof.
+  intros Hds Hr. induction Hds as [|c l Hc Hl IH]; cbn [app].
+  - destruct r as [|c r]; [reflexivity|]. cbn [span_hex]. rewrite Hr. reflexivity.
+  - cbn [span_hex]. rewrite Hc, IH. reflexivity.
+Qed.
+
+Lemma skip_line_app ext r :
+  Forall (fun c => c <> 10%N) ext -> skip_line (ext ++ 13%N :: 10%N :: r) = r.
+Proof.
+  intros H. induction H as [|c l Hc Hl IH]; cbn [app skip_line].
+  - reflexivity.
+  - destruct (c =? 10)%N eqn:E; [apply N.eqb_eq in E; congruence | exact IH].
+Qed.
+
+Lemma size_line_head ext (r : bytes) :
+  match ext with [] => True | c :: _ => is_hex c = false end ->
+  match ext ++ 13%N :: 10%N :: r with [] => True | c :: _ => is_hex c = false end.
+Proof. destruct ext; cbn; [reflexivity | auto]. Qed.
+
+Lemma dechunk_step f c rest :
+  wf_chunk c ->
+  dechunk (S f) (wc_size c ++ wc_ext c ++ 13%N :: 10%N :: wc_data c ++ 13%N :: 10%N :: rest)
+  = option_map (app (wc_data c)) (dechunk f rest).
+Proof.
+  intros ((Hne & Hhex & Hext & Hhd) & Hval & Hd).
+  cbn [dechunk]. rewrite (span_hex_app _ _ Hhex (size_line_head _ _ Hhd)).
+  destruct (wc_size c) as [|d0 dr] eqn:Eds; [congruence|]. rewrite Hval, Nat2N.id.
+  rewrite (skip_line_app _ _ Hext).
+  destruct (wc_data c) as [|b0 br] eqn:Ed; [congruence|]. rewrite <- Ed.
+  assert (Hlen : (1 <= length (wc_data c))%nat) by (rewrite Ed; cbn; lia).
+  destruct (Nat.eqb (length (wc_data c)) 0) eqn:E0; [apply Nat.eqb_eq in E0; lia|].
+  destruct (Nat.ltb (length (wc_data c ++ 13%N :: 10%N :: rest)) (length (wc_data c) + 2)) eqn:E1.
+  { apply Nat.ltb_lt in E1. rewrite app_length in E1. cbn [length] in E1. lia. }
+  rewrite skipn_app, skipn_all, Nat.sub_diag. cbn [skipn app].
+  rewrite firstn_app, firstn_all, Nat.sub_diag, firstn_O, app_nil_r. reflexivity.
+Qed.
+
+Lemma dechunk_last f size ext trailers :
+  wf_size_line size ext -> hex_num size 0 = 0%N ->
+  dechunk (S f) (enc_last size ext trailers) = Some [].
+Proof.
+  intros (Hne & Hhex & Hext & Hhd) Hval. unfold enc_last.
+  cbn [dechunk]. rewrite (span_hex_app _ _ Hhex (size_line_head _ _ Hhd)).
+  destruct size as [|d0 dr]; [congruence|]. rewrite Hval. reflexivity.
+Qed.
+
+Theorem dechunk_enc cs size ext trailers fuel :
+  (forall c, In c cs -> wf_chunk c) -> wf_size_line size ext -> hex_num size 0 = 0%N ->
+  (length cs < fuel)%nat ->
+  dechunk fuel (enc_chunks cs (enc_last size ext trailers)) = Some (concat (map wc_data cs)).
+Proof.
+  intros Hwf Hl Hv. revert fuel. induction cs as [|c r IH]; intros fuel Hf.
+  - destruct fuel as [|f]; [cbn in Hf; lia|]. cbn [enc_chunks map concat]. apply dechunk_last; assumption.
+  - destruct fuel as [|f]; [lia|]. cbn [enc_chunks map concat].
+    rewrite dechunk_step by (apply Hwf; left; reflexivity).
+    rewrite IH; [reflexivity | intros c' Hc'; apply Hwf; right; exact Hc' | cbn [length] in Hf; lia].
+Qed.
+
+(* the limit on a chunked upload: whatever the chunk sizes, size-line spellings, extensions and trailers on the
+   wire, and however the caller reads, the handler gets the decoded body up to the limit — all of it with EOF when
+   it fits, exactly the first [limit] bytes with the too-large error when it does not.  The chunked reader hands
+   over at most the rest of the current chunk per Read: the script of the underlying reader is the chunk sizes *)
+Theorem chunked_limit_counts_decoded limit cs size ext trailers fuel eofd bufs d e s' :
+  (forall c, In c cs -> wf_chunk c) -> wf_size_line size ext -> hex_num size 0 = 0%N ->
+  (length cs < fuel)%nat -> 0 <= limit ->
+  (forall m, In m bufs -> (1 <= m)%nat) ->
+  (length (concat (map wc_data cs)) + 2 <= length bufs)%nat ->
+  exists body, dechunk fuel (enc_chunks cs (enc_last size ext trailers)) = Some body /\
+    body = concat (map wc_data cs) /\
+    (read_all (mbr_init limit body (map (fun c => length (wc_data c)) cs) eofd) bufs = (d, e, s') ->
+     (Z.of_nat (length body) <= limit -> d = body /\ e = Some EOF) /\
+     (limit < Z.of_nat (length body) -> d = firstn (Z.to_nat limit) body /\ e = Some TooLarge)).
+Proof.
+  intros Hwf Hl Hv Hf Hlim Hb Hlen. exists (concat (map wc_data cs)).
+  split; [apply dechunk_enc; assumption|]. split; [reflexivity|].
+  intros H. refine (limit_complete limit _ _ eofd bufs d e s' Hlim Hb _ Hlen H).
+  intros k Hk. apply in_map_iff in Hk as (c & <- & Hc). destruct (Hwf c Hc) as (_ & _ & Hd).
+  destruct (wc_data c); [congruence | cbn; lia].
+Qed.
